@@ -167,18 +167,24 @@ pub fn long_needle<const L: usize>(k: Kind) {
     let mut m = Matcher::new(sc.cfg.clone());
     let r = call(&mut m, k, Utf32Str::Ascii(&hay), Utf32Str::Ascii(&hay), None);
     check!(r.is_some(), "C05 a string matches itself (long needle)");
-    // every step adds at least 16: beyond 4096 characters the true value exceeds u16::MAX
-    check!(r == Some(u16::MAX), "C03 the score of a needle of several thousand characters saturates instead of wrapping around");
+    // every step adds at least 20 (16 + the run bonus of at least 4): from 3400 characters on
+    // the true value exceeds u16::MAX whatever the configuration; below that only "no overflow"
+    // (Kani's arithmetic checks) is asserted
+    if L >= 3400 {
+        check!(r == Some(u16::MAX), "C03 the score of a needle of several thousand characters saturates instead of wrapping around");
+    } else {
+        check!(r.map_or(false, |v| v as usize >= 20 * (L - 1)), "C03 the score of a long needle does not wrap around");
+    }
     std::mem::forget(m);
 }
 
 /// the prefer_prefix penalty must not overflow wherever the match starts: the scoring walk is
 /// entered directly (no scan loops over the long haystack) with a SYMBOLIC start position in a
-/// haystack of 65 600 symbolic bytes and a one-character needle; Kani's overflow checks are the
+/// haystack of 22 400 symbolic bytes (the penalty 3 + 3*(start-1) exceeds u16 from start 21 846 on) and a one-character needle; Kani's overflow checks are the
 /// assertion
 pub fn prefix_penalty_all_starts() {
     use crate::chars::AsciiChar;
-    const L: usize = 65_600;
+    const L: usize = 22_400;
     let sc = sym_config(Some(true));
     let hay: [u8; L] = sym::bytes();
     let start = sym::usize_();
@@ -193,6 +199,6 @@ pub fn prefix_penalty_all_starts() {
         &mut Vec::new(),
     );
     check!(r >= 16, "C03 a one-character match scores at least the match score wherever it starts");
-    cover!(start > 30_000, "match far into the haystack");
+    cover!(start > 21_900, "match far into the haystack");
     std::mem::forget(m);
 }
